@@ -16,7 +16,7 @@ import time
 from .. import cli, isolate
 from ..common import digest
 
-LEVEL = "exploration"
+LEVEL = "fault_enumeration"
 RULE = (
     "per (model, history group): 3 seeded kernels of the model's ISA from the shipped corpus; one *case* = one report of one "
     "kernel produced by a driver process at one step of a cache history (cold / no-cache / warm companion / warm home cache / "
